@@ -379,6 +379,7 @@ def _observed_run(args):
     h.desc = case["desc"]
     h.ds = Dataset(h.root)
     h.model = {s: [] for s in dsops.SPLITS}
+    h.calls = {s: [] for s in dsops.SPLITS}
     h.dirs = list(case.get("_dirs", []))
     h.session_no = 50
     h.sessions = []
